@@ -19,7 +19,7 @@ LEVEL = "exploration"
 RULE = (
     "case = one word class (<=3 letters, prefix 0-3, <=4 factors, 0-3 statistics, possibly proper) or "
     "one real search whose recorded rules are harvested; every strategy is applied, every derived form "
-    "built, and each form evaluated for all sizes <= N against brute force. non-trivial = a case with a "
+    "built, and each form evaluated for all sizes <= N against brute force - once per size through its constructor with fresh providers, once through the rule's own get_terms (level cache) with the counting interrupted at a random provider call and the same object asked again. non-trivial = a case with a "
     "derived (non-plain) form on a class with >= 1 statistic or a path form; distinct = class fingerprints"
 )
 LEVEL_TEXT = (
